@@ -61,6 +61,16 @@ func runEpochProp(r *Run, prop string) error {
 		}
 	}
 	cf.Close("epoch_mismatches")
+	if prop == "C02" {
+		// randomly constructed populations (recorded finding: single-point crossover of unrelated genomes)
+		for i := 0; i < r.N(12, 200); i++ {
+			in := newEpochInput(r, prop, 40, 8, true)
+			in.Random = true
+			res := runHistory(r, in, nil, 0)
+			r.Count(fmt.Sprint("random", in.Seed), res.multi > 0)
+			r.Hist("random_population_epochs_run", bucket(res.epochsRun))
+		}
+	}
 	// larger populations and longer runs: Go-side oracle only (tie-free fitness)
 	for i := 0; i < r.N(30, 600); i++ {
 		in := newEpochInput(r, prop, 70, 25, true)
